@@ -59,6 +59,7 @@ type VC struct {
 	entryState  *State
 	exitState   *State
 	rootFr      *Frame
+	mapKeys     map[string]bool // every map heap (kind|K|V) mentioned so far
 	rootAllowed map[Sort][]Term // modifies clause of the root contract, per sort (nil: not usable)
 	rootAllowedDone bool
 	paramTerms  []Term
@@ -207,10 +208,14 @@ type State struct {
 	// set by mergeStates on its result: the selector constants of the merge (sel[i] <=> the
 	// i-th incoming state was the one reached), for merging values alongside the state
 	mergeSels []Term
+	// a state merged from states of different map epochs: map heaps not mentioned before the
+	// merge are merged on demand from the parents (see mapHeap)
+	lazyParents []*State
+	lazySels    []Term
 }
 
 func (s *State) clone() *State {
-	n := &State{reach: s.reach, taint: s.taint, base: s.base, mbase: s.mbase, alloc: s.alloc,
+	n := &State{reach: s.reach, taint: s.taint, base: s.base, mbase: s.mbase, alloc: s.alloc, lazyParents: s.lazyParents, lazySels: s.lazySels,
 		hbound: make(map[Sort]Term, len(s.hbound)), epochBound: s.epochBound,
 		heaps: make(map[Sort]Term, len(s.heaps)), maps: make(map[string]Term, len(s.maps)), ghost: make(map[string]Term, len(s.ghost))}
 	for k, v := range s.heaps {
@@ -360,7 +365,20 @@ func (vc *VC) mapHeap(st *State, kind string, k, v Sort) Term {
 	if kind == "len" {
 		key = "len"
 	}
+	if vc.mapKeys == nil {
+		vc.mapKeys = map[string]bool{}
+	}
+	vc.mapKeys[key] = true
 	if h, ok := st.maps[key]; ok {
+		return h
+	}
+	if len(st.lazyParents) > 0 {
+		t := vc.mapHeap(st.lazyParents[len(st.lazyParents)-1], kind, k, v)
+		for i := len(st.lazyParents) - 2; i >= 0; i-- {
+			t = Ite(st.lazySels[i], vc.mapHeap(st.lazyParents[i], kind, k, v), t)
+		}
+		h := vc.Define("m", t)
+		st.maps[key] = h
 		return h
 	}
 	name := "M!" + st.mbase + "!" + sanitize(key)
@@ -383,6 +401,7 @@ func (vc *VC) setMapHeap(st *State, kind string, k, v Sort, h Term) {
 func (vc *VC) havocAll(st *State) {
 	st.base = vc.freshName("ep")
 	st.mbase = st.base
+	st.lazyParents, st.lazySels = nil, nil
 	st.heaps = map[Sort]Term{}
 	st.hbound = map[Sort]Term{}
 	st.maps = map[string]Term{}
@@ -481,6 +500,21 @@ func (vc *VC) mergeStates(ins []*State) *State {
 		for k := range s.maps {
 			mkeys[k] = true
 		}
+	}
+	sameMBase := true
+	for _, s := range ins {
+		if s.mbase != ins[0].mbase {
+			sameMBase = false
+		}
+	}
+	if !sameMBase {
+		// the incoming states live in different map epochs: every map heap seen so far is merged
+		// explicitly, the others on demand (otherwise the merged epoch would leave them unconstrained)
+		for k := range vc.mapKeys {
+			mkeys[k] = true
+		}
+		out.lazyParents = ins
+		out.lazySels = sels
 	}
 	var ml []string
 	for k := range mkeys {
